@@ -551,6 +551,23 @@ func (s *Sim) Drain(budget int) {
 	}
 }
 
+// DrainIf is Drain restricted to parked goroutines whose label passes keep; the others stay parked.
+func (s *Sim) DrainIf(budget int, keep func(label string) bool) {
+	for i := 0; i < budget; i++ {
+		ps := s.Settle()
+		var pick *Parked
+		for j := range ps {
+			if ps[j].Enabled && keep(ps[j].Label) && (pick == nil || ps[j].w.seq < pick.w.seq) {
+				pick = &ps[j]
+			}
+		}
+		if pick == nil {
+			return
+		}
+		s.Release(*pick)
+	}
+}
+
 // Do runs fn in a task and schedules first-come-first-served until it has
 // returned; for setup and probing code of the driver that crosses yield
 // points. It reports whether fn finished within the step budget.
